@@ -862,3 +862,48 @@ def check_recursion(ctx, P, roots, rule, crate=None, key_prefix='REC'):
             ctx.bad(rule, inst, 'recursion through %d mutually recursive functions (e.g. %s) has no depth limit: nesting depth is bounded only by the input length, so a few tens of kilobytes of nested containers overflow a worker stack'
                     % (len(comp), ', '.join(x.rsplit('::', 1)[1] for x in sorted(comp)[:4])), ctx.where(P.B(entry)), key='%s:%s' % (key_prefix, entry))
     return n
+
+
+# --------------------------------------------------------------- FIELDSET ----
+
+def _places_of_stmt(st):
+    out = []
+    if st['k'] != '=':
+        return out
+    out.append(st['pl'])
+    rv = st['rv']
+    k = rv['k']
+    if k in ('ref', 'rawptr', 'discr'):
+        out.append(rv['pl'])
+    for key in ('op', 'a', 'b'):
+        o = rv.get(key)
+        if isinstance(o, dict) and o.get('k') in ('cp', 'mv'):
+            out.append(o['pl'])
+    for o in rv.get('ops', []) or []:
+        if o.get('k') in ('cp', 'mv'):
+            out.append(o['pl'])
+    return out
+
+
+def fields_touched(B, adt):
+    """set of field names of `adt` that body B accesses (reads or writes) through place projections"""
+    out = set()
+    for blk in B.blocks:
+        pls = []
+        for st in blk['s']:
+            pls += _places_of_stmt(st)
+        t = blk['t']
+        if t['k'] == 'call':
+            for a in t['args']:
+                if a['k'] in ('cp', 'mv'):
+                    pls.append(a['pl'])
+            pls.append(t['dst'])
+        elif t['k'] == 'switch' and t['d']['k'] in ('cp', 'mv'):
+            pls.append(t['d']['pl'])
+        elif t['k'] == 'drop':
+            pls.append(t['pl'])
+        for pl in pls:
+            for e in pl.get('p') or []:
+                if isinstance(e, dict) and e.get('adt') == adt and 'n' in e:
+                    out.add(e['n'])
+    return out
